@@ -150,4 +150,55 @@ example : (ClientReq.divSingle 11 0 30).written 16 =
 example : Dispatch.recvHandle [0x55, 0x09, 0x00, 0x07, 0x00, 0x00, 0x1e, 0x79, 0x00, 0, 0, 0, 0, 0, 0, 0] =
     .fired 3 [0x00, 0x00, 0x1e] := by decide +kernel
 
+/-- round 6: padding is minimal — an already aligned write is handed on unchanged -/
+theorem align_noop_when_aligned (p : Nat) (d : Bytes) (h : p = 0 ∨ p ∣ d.length) : Pad.dataAlign p d = d := by
+  unfold Pad.dataAlign
+  rcases h with h | h
+  · simp [h]
+  · have : d.length % p = 0 := Nat.mod_eq_zero_of_dvd h
+    simp [this]
+
+/-- round 6: the padded length is the least multiple of `p` that is ≥ the length (so never a whole block of zeros) -/
+theorem align_length (p : Nat) (d : Bytes) (hp : 0 < p) :
+    (Pad.dataAlign p d).length = (d.length + p - 1) / p * p := by
+  unfold Pad.dataAlign
+  have hp' : p ≠ 0 := by omega
+  simp only [hp', ne_eq, not_false_eq_true, if_true]
+  by_cases hm : d.length % p = 0
+  · simp only [hm, not_true_eq_false, if_false]
+    obtain ⟨q, hq⟩ := Nat.dvd_of_mod_eq_zero hm
+    rw [hq]
+    have : (p * q + p - 1) / p = q := by
+      rw [Nat.add_sub_assoc (by omega), Nat.mul_add_div hp]
+      have : (p - 1) / p = 0 := Nat.div_eq_of_lt (by omega)
+      omega
+    rw [this, Nat.mul_comm]
+  · simp only [hm, not_false_eq_true, if_true, List.length_append, List.length_replicate]
+    have hlt := Nat.mod_lt d.length hp
+    have hdm := Nat.div_add_mod d.length p
+    generalize d.length / p = q at hdm
+    generalize d.length % p = m at *
+    rw [← hdm]
+    have : (p * q + m + p - 1) / p = q + 1 := by
+      have : p * q + m + p - 1 = p * (q + 1) + (m - 1) := by
+        rw [Nat.mul_add]; omega
+      rw [this, Nat.mul_add_div hp]
+      have : (m - 1) / p = 0 := Nat.div_eq_of_lt (by omega)
+      omega
+    rw [this, Nat.add_mul, Nat.mul_comm q p]
+    omega
+
+/-- round 6: padding twice is padding once (a retransmitted, already padded buffer does not grow) -/
+theorem align_idempotent (p : Nat) (d : Bytes) : Pad.dataAlign p (Pad.dataAlign p d) = Pad.dataAlign p d := by
+  apply align_noop_when_aligned
+  obtain ⟨k, h0, h1, he⟩ := align_spec p d
+  by_cases hp : p = 0
+  · exact Or.inl hp
+  · right
+    rw [he]
+    simpa using (h1 (by omega)).2
+
+example : Pad.dataAlign 4 [1, 2, 3, 4, 5] = [1, 2, 3, 4, 5, 0, 0, 0] := by decide
+example : Pad.dataAlign 4 [1, 2, 3, 4] = [1, 2, 3, 4] := by decide
+
 end Nxs.C17
